@@ -762,10 +762,29 @@ func (ch *c20Chain) absorbApply(au consensus.ApplyUpdate, fresh map[types.Hash25
 		}
 		ch.v2fces[fce.ID] = fce
 	}
+	// attestation elements have no accessor; they are visible in the update's JSON form
+	for _, ae := range c20AttestationElements(au) {
+		a := ae
+		ch.track("att", types.Hash256(a.ID), a.StateElement, func() types.Hash256 { return c20ElemHash("leaf/attestation", a.ID, a.Attestation) })
+	}
 	cie := au.ChainIndexElement().Copy()
 	ch.cies[cie.ChainIndex.Height] = cie
 	ci := cie
 	ch.track("ci", types.Hash256(cie.ID), cie.StateElement, func() types.Hash256 { return c20ElemHash("leaf/chainindex", ci.ID, ci.ChainIndex) })
+}
+
+func c20AttestationElements(au consensus.ApplyUpdate) []types.AttestationElement {
+	js, err := json.Marshal(au)
+	if err != nil {
+		return nil
+	}
+	var v struct {
+		AttestationElements []types.AttestationElement `json:"attestationElements"`
+	}
+	if json.Unmarshal(js, &v) != nil {
+		return nil
+	}
+	return v.AttestationElements
 }
 
 // runChain builds one chain and checks every update.
@@ -885,6 +904,9 @@ func (r *c20run) runChain(chainSeed int64, nblocks int) {
 						}
 					}
 					created[types.Hash256(au.ChainIndexElement().ID)] = true
+					for _, ae := range c20AttestationElements(au) {
+						created[types.Hash256(ae.ID)] = true
+					}
 					// use the pre-block content/spent flags for verification: compare on a
 					// view of the chain where those are restored but proofs are the post-block ones
 					view := snapshot.withProofsFrom(ch)
